@@ -21,7 +21,7 @@ Put(f, k, v) == [x \in DOMAIN f \cup {k} |-> IF x = k THEN v ELSE f[x]]
 SeqRange(s)  == {s[j] : j \in DOMAIN s}
 
 UnownedSlots == {"U"}
-LocalKinds   == {"ping", "quit", "unknown", "arity", "auth", "authbad"}
+LocalKinds   == {"ping", "quit", "unknown", "arity", "auth", "authbad", "reject"}
 MultiKinds   == {"mget", "del", "mset"}
 ReadKinds    == {"get", "mget"}
 
@@ -67,6 +67,7 @@ FitsLocal(k, rep) ==
     [] k = "quit"    -> rep.t = "ok"
     [] k = "unknown" -> rep.t = "perr" /\ rep.txt = "unknown command"
     [] k = "arity"   -> rep.t = "perr" /\ rep.txt = "wrong number of arguments"
+    [] k = "reject"  -> rep.t = "perr"          \* (which error: decided by CmdTrace against the command table)
     [] OTHER         -> rep.t \in {"ok", "perr"}
 
 TypeFits(k, rep) ==
